@@ -542,15 +542,16 @@ func initTopicNewGrp(t *Topic, sreg *ClientComMessage, isChan bool) error {
 					t.accessAuth, t.accessAnon); err != nil {
 
 					// Invalid access for one or both. Make it explicitly None
+					// The part which did parse must not grant ownership by default either.
 					if authMode.IsInvalid() {
 						t.accessAuth = types.ModeNone
 					} else {
-						t.accessAuth = authMode
+						t.accessAuth = authMode & ^types.ModeOwner
 					}
 					if anonMode.IsInvalid() {
 						t.accessAnon = types.ModeNone
 					} else {
-						t.accessAnon = anonMode
+						t.accessAnon = anonMode & ^types.ModeOwner
 					}
 					logs.Err.Println("hub: invalid access mode for topic '" + t.name + "': '" + err.Error() + "'")
 				} else if authMode.IsOwner() || anonMode.IsOwner() {
